@@ -203,22 +203,53 @@ func varInit(c *core.Ctx, pk, name string) (int64, bool) {
 
 func checkPayout(c *core.Ctx, fn *ssa.Function) {
 	name := fn.Name()
-	// credits: candidate.AddUpdate(base, X, X, addr) paired with Checker.AddCoin(base, X) in the same block
-	n, bad := 0, 0
+	// credits: candidate.AddUpdate(base, X, X, addr) paired with Checker.AddCoin(base, X) in the same
+	// block — written in the function itself, or in a helper only it calls (payReward(candidate, …,
+	// address, amount, …)), in which case the helper's parameters stand for the caller's arguments
+	type credit struct {
+		pos              token.Pos
+		value, bip, addr ssa.Value
+		paired           bool
+	}
+	var credits []credit
+	collect := func(g *ssa.Function, mapv func(ssa.Value) ssa.Value, at func(*core.Site) token.Pos) {
+		for _, s := range core.Sites(g) {
+			if calledField(s) != "AddUpdate" {
+				continue
+			}
+			paired := false
+			for _, s2 := range core.Sites(g) {
+				if methodName(s2) == "AddCoin" && s2.Block() == s.Block() && core.Unwrap(s2.Arg(1)) == core.Unwrap(s.Arg(1)) {
+					paired = true
+				}
+			}
+			credits = append(credits, credit{pos: at(s), value: mapv(s.Arg(1)), bip: mapv(s.Arg(2)), addr: mapv(s.Arg(3)), paired: paired})
+		}
+	}
+	collect(fn, func(v ssa.Value) ssa.Value { return v }, func(s *core.Site) token.Pos { return s.Pos() })
 	for _, s := range core.Sites(fn) {
-		if calledField(s) != "AddUpdate" {
+		// (an unexported function of the package; it may be shared by the reward versions)
+		h := s.Common.StaticCallee()
+		if h == nil || h.Blocks == nil || core.PkgOf(h) != core.PkgOf(fn) || h.Object() == nil || h.Object().Exported() {
 			continue
 		}
-		n++
-		paired := false
-		for _, s2 := range core.Sites(fn) {
-			if methodName(s2) == "AddCoin" && s2.Block() == s.Block() && core.Unwrap(s2.Arg(1)) == core.Unwrap(s.Arg(1)) {
-				paired = true
+		call := s
+		collect(h, func(v ssa.Value) ssa.Value {
+			if p, ok := core.Unwrap(v).(*ssa.Parameter); ok {
+				for i, q := range h.Params {
+					if q == p && i < len(call.Common.Args) {
+						return call.Common.Args[i]
+					}
+				}
 			}
-		}
-		if !paired || core.Unwrap(s.Arg(1)) != core.Unwrap(s.Arg(2)) {
+			return v
+		}, func(*core.Site) token.Pos { return call.Pos() })
+	}
+	n, bad := len(credits), 0
+	for i, cr := range credits {
+		if !cr.paired || core.Unwrap(cr.value) != core.Unwrap(cr.bip) {
 			bad++
-			c.Bad("C19.payout", fmt.Sprintf("%s/credit#%d", name, n), s.Pos(), "a reward credit is not reported to the supply checker with the same value (or value and bip value differ)")
+			c.Bad("C19.payout", fmt.Sprintf("%s/credit#%d", name, i+1), cr.pos, "a reward credit is not reported to the supply checker with the same value (or value and bip value differ)")
 		}
 	}
 	if bad == 0 {
@@ -228,15 +259,13 @@ func checkPayout(c *core.Ctx, fn *ssa.Function) {
 	// DAO / developers recipients
 	for _, who := range []string{"dao", "developers"} {
 		found := false
-		for _, s := range core.Sites(fn) {
-			if calledField(s) == "AddUpdate" {
-				p := core.Path(s.Arg(3))
-				if strings.Contains(p, "global:Address") {
-					// which package's Address
-					if ld, ok := core.Unwrap(s.Arg(3)).(*ssa.UnOp); ok {
-						if g, ok := ld.X.(*ssa.Global); ok && g.Pkg != nil && strings.HasSuffix(g.Pkg.Pkg.Path(), "/"+who) {
-							found = true
-						}
+		for _, cr := range credits {
+			p := core.Path(cr.addr)
+			if strings.Contains(p, "global:Address") {
+				// which package's Address
+				if ld, ok := core.Unwrap(cr.addr).(*ssa.UnOp); ok {
+					if g, ok := ld.X.(*ssa.Global); ok && g.Pkg != nil && strings.HasSuffix(g.Pkg.Pkg.Path(), "/"+who) {
+						found = true
 					}
 				}
 			}
